@@ -307,7 +307,7 @@ func (hs *clientHandshakeState) handshake() error {
 
 func (hs *clientHandshakeState) pickTLSVersion() error {
 	vers, ok := hs.c.config.mutualVersion(hs.serverHello.vers)
-	if !ok || vers < VersionTLS10 {
+	if !ok || vers < VersionTLS10 || vers != hs.serverHello.vers {
 		// TLS 1.0 is the minimum version supported as a client.
 		hs.c.sendAlert(alertProtocolVersion)
 		return fmt.Errorf("tls: server selected unsupported protocol version %x", hs.serverHello.vers)
